@@ -432,7 +432,9 @@ def generate_bufr_message(decoder, s, info_only=False, continue_on_error=False, 
             if info_only:
                 bufr_message.serialized_bytes = s[idx_start: idx_start + bufr_message.length.value]
             else:
-                if (bufr_message.data_category.value == DATA_CATEGORY_DEFINE_BUFR_TABLES
+                # A message rejected by the filter is only decoded up to its metadata
+                # and carries no template data for the table definition processor.
+                if (matched and bufr_message.data_category.value == DATA_CATEGORY_DEFINE_BUFR_TABLES
                         and bufr_message.n_subsets.value > 0):
                     _, b_entries, d_entries = BufrTableDefinitionProcessor().process(bufr_message)
                     TableGroupCacheManager.invalidate()
